@@ -397,6 +397,52 @@ def rule_r4(ctx):
                 rr.ok(what, sample={"rule": "C06-R4", "site": fi.where(), "guard": ast.unparse(test), "verdict": "equivalent to is_parameter() of the enclosing function's symbol"})
     if n_param_sites < 2:
         raise AnalysisError(f"C06-R4: only {n_param_sites} population sites of nonlocal_parameters found (2 confirmed by hand)")
+    # every free / nonlocal name of the scope is linked: the loop over the names is never left early
+    mi = ctx.prog.modules["oneliner.namespaces"]
+    n_loops = 0
+    for ci in mi.classes.values():
+        for fi in ci.methods.values():
+            for lp in ast.walk(fi.node):
+                if not isinstance(lp, ast.For):
+                    continue
+                it_txt = ast.unparse(lp.iter)
+                if not any(x in it_txt for x in ("get_frees", "get_nonlocals", "get_symbols", "get_identifiers")):
+                    continue
+                if not any(isinstance(c, ast.Call) and isinstance(c.func, ast.Attribute) and c.func.attr == "add" and isinstance(c.func.value, ast.Attribute) and c.func.value.attr == "inner_nonlocal_names" for c in ast.walk(lp)):
+                    continue
+                n_loops += 1
+                rr.instances += 1
+                what = f"{ci.name}|names-loop|complete"
+
+                def own_exits(stmts):
+                    out = []
+                    for st in stmts:
+                        if isinstance(st, (ast.Break, ast.Return)):
+                            out.append(st)
+                        elif isinstance(st, (ast.For, ast.While, ast.AsyncFor)):
+                            out += [x for x in own_exits(st.body) + own_exits(st.orelse) if isinstance(x, ast.Return)]
+                            out += own_exits(st.orelse) if False else []
+                        elif isinstance(st, (ast.FunctionDef, ast.AsyncFunctionDef, ast.ClassDef, ast.Lambda)):
+                            continue
+                        else:
+                            for blk in ("body", "orelse", "finalbody"):
+                                out += own_exits(getattr(st, blk, []) or [])
+                            for h in getattr(st, "handlers", []) or []:
+                                out += own_exits(h.body)
+                    return out
+
+                exits = own_exits(lp.body)
+                if exits:
+                    e = exits[0]
+                    rr.fail(
+                        f"C06-R4|{ci.name}|names-loop|left-early",
+                        f"{fi.where()} line {e.lineno}: `{type(e).__name__.lower()}` leaves the loop over `{it_txt[:60]}`: the free / nonlocal names that come after the current one are never linked to the function that owns them (a method that calls zero-argument super() BEFORE it first mentions a variable of an enclosing function reads / writes a plain name: NameError or UnboundLocalError)",
+                        where=fi.where(), what=what,
+                    )
+                else:
+                    rr.ok(what, sample={"rule": "C06-R4", "loop": f"{ci.name}.{fi.name}: for ... in {it_txt[:50]}", "verdict": "no break/return at the level of the names loop"})
+    if n_loops < 2:
+        raise AnalysisError(f"C06-R4: only {n_loops} loops over the free names found (2 confirmed by hand)")
     return rr
 
 
